@@ -19,4 +19,16 @@ CHECKS = {
         "note": "Trusted: FFTW as an opaque linear operator (results compared up to rounding), the interpreter back end for the three element-wise kernels (bound to the generated code by conformance replay), the 40-line reference in refmodel/greens.py. Shapes beyond the enumerated range are not covered.",
         "technique": "basis enumeration of the full operator matrix + explicit-state BFS over operation histories on the real solver objects",
     },
+    "C05": {
+        "text": "Exhaustive within bounds, exact arithmetic: every differential operator is driven through its public wrapper on every monomial of the stated degree (a basis of the polynomial space the property quantifies over), sampled on the simulator's own coordinate convention, at every interior cell of a non-cubic grid and three rational spacings, and compared with == against the analytically differentiated polynomial. Because the operators are linear and translation invariant, agreement on the monomial basis at all interior cells decides polynomial exactness for that stencil; ENO3 is enumerated over its four (front, back) upwind patterns per axis.",
+        "design_ref": "DESIGN.md section 5 C05, section 4.2",
+        "note": "Trusted: the interpreter's exact mode (float literals rationalised, bound to the generated code by conformance replay in float mode), the 60-line polynomial class in refmodel/poly.py. One grid shape per dimension.",
+        "technique": "basis enumeration (monomials x interior cells x upwind branch patterns) in exact rational arithmetic on captured kernels through the real wrappers",
+    },
+    "C20": {
+        "text": "Exhaustive within bounds: for a frozen velocity every unit vorticity impulse (component x cell) of small non-cubic grids is pushed through the real SSP-RK3 and Euler stretching kernels; the Euler flux operator A is collected as a full matrix from the library's own flux kernel and the outputs must equal (I + A + A^2/2 + A^3/6) e resp. (I + A) e. Euler advection/diffusion kernels are checked in exact arithmetic against field + flux(field) for every velocity sign pattern of the alphabet. For the linear maps involved the impulse basis decides the operator identity on that grid.",
+        "design_ref": "DESIGN.md section 5 C20, section 4.2",
+        "note": "Trusted: interpreter back end (the 4-D element-wise kernels cannot be built by the installed pystencils, so they are unbound); identity checked to 64 eps for SSP-RK3 (runtime float stage weights), exactly for Euler kernels.",
+        "technique": "basis enumeration of the full step operator vs polynomial in the library's own flux operator; exact-arithmetic enumeration over velocity sign patterns",
+    },
 }
